@@ -41,7 +41,7 @@ type c07Prop struct {
 
 func genC07(c *Ctx) error {
 	c.ShardSize = 30
-	c.Notes["rule"] = "one token chaincode instance A lives through the whole history; every proposal is run on A, on a fresh instance B created for that proposal over the same committed state, and on A again, with the same transaction id and timestamp; the three (status, message, payload bytes, write-set, event) are compared. Histories of 30-50 proposals: Init with one of two configurations (different robot), committed or simulated and dropped; token operations through executeTasks (emit, transfer, setFee with known / unknown currency, setFeeAddress, setRate, setLimits, buyToken, buyBack - right and wrong senders and amounts), committed or dropped, some in one task list of several tasks; queries (metadata, predictFee, balanceOf, allowedBalanceOf; also of an address the access-control service black-lists and clears between proposals); batched submissions whose proposal carries a trace parent in the transient map while each simulating peer's decorators add a different span of their own (the pending record is ledger data); probes which robot certificate the instance accepts; the token's document list (complete and incomplete additions, deletions, by the issuer and by others, then the listing); signed submissions sent to the same process under a second chaincode name (simulated and dropped); swaps begun in dropped simulations followed by an empty batchExecute (whose reply must not remember them); the cancellation of an open multi-swap sent with a timestamp before and with one after its deadline, both long past on the machine's own clock (the two replies must differ). Non-trivial: >= 3 dropped simulations that would have changed the metadata and >= 5 committed operations."
+	c.Notes["rule"] = "one token chaincode instance A lives through the whole history; every proposal is run on A, on a fresh instance B created for that proposal over the same committed state, and on A again, with the same transaction id and timestamp; the three (status, message, payload bytes, write-set, event) are compared. Histories of 30-50 proposals: Init with one of two configurations (different robot; the second disables two functions), committed or simulated and dropped; token operations through executeTasks (emit, transfer, setFee with known / unknown currency, setFeeAddress, setRate, setLimits, buyToken, buyBack - right and wrong senders and amounts), committed or dropped, some in one task list of several tasks; queries (metadata, predictFee, balanceOf, allowedBalanceOf; also of an address the access-control service black-lists and clears between proposals); batched submissions whose proposal carries a trace parent in the transient map while each simulating peer's decorators add a different span of their own (the pending record is ledger data); probes which robot certificate the instance accepts; the token's document list (complete and incomplete additions, deletions, by the issuer and by others, then the listing); signed submissions sent to the same process under a second chaincode name (simulated and dropped); swaps begun in dropped simulations followed by an empty batchExecute (whose reply must not remember them); the cancellation of an open multi-swap sent with a timestamp before and with one after its deadline, both long past on the machine's own clock (the two replies must differ). Non-trivial: >= 3 dropped simulations that would have changed the metadata and >= 5 committed operations."
 	n := c.N(60, 1000)
 	for i := 0; i < n; i++ {
 		if err := c07Case(c); err != nil {
@@ -85,7 +85,15 @@ func c07Case(c *Ctx) error {
 		uids = append(uids, fmt.Sprintf("(%d, %d)", a.N(), uidN[a.UserID]))
 	}
 	robots := map[int]*Identity{1: w.Robot, 2: w.Client}
-	cfgJSON := func(v int) string { return w.ConfigJSON("TT", ChanOpts{RobotSKI: robots[v].SKI}) }
+	// the second configuration also disables two functions (the document operations, which no modelled step uses): the
+	// method list of the metadata query is that of the configuration in force, on every instance
+	cfgJSON := func(v int) string {
+		o := ChanOpts{RobotSKI: robots[v].SKI}
+		if v == 2 {
+			o.Disabled = []string{"TxAddDocs", "TxDeleteDoc"}
+		}
+		return w.ConfigJSON("TT", o)
+	}
 
 	// run one proposal on A, on a fresh B, on A again
 	run3 := func(p c07Prop) (*TxResult, uint64, uint64, uint64, error) {
@@ -376,6 +384,11 @@ func c07Case(c *Ctx) error {
 			cw.nonce++
 			req := w.SignedArgs("tt", "script", users[rng.Intn(3)], strconv.FormatUint(cw.nonce, 10), "put,kt,v")
 			w.Peer.Transient = map[string][]byte{"traceparent": tp()}
+			if rng.Intn(2) == 0 {
+				// the W3C baggage header travels with the trace parent
+				w.Peer.Transient["baggage"] = []byte([]string{"a=1", "a=1,b=2", "tenant=t1,user=u7,shard=3,flag=on"}[rng.Intn(3)])
+				c.Count("traced_submission_with_baggage")
+			}
 			decos := []map[string][]byte{{"traceparent": tp()}, {"traceparent": tp()}, nil}
 			if rng.Intn(3) == 0 {
 				decos[rng.Intn(2)] = nil
